@@ -337,6 +337,40 @@ func c02Worker(c *core.Collector, x *Ctx) {
 			}
 		}
 	})
+	// ---- (c2) phone rendering: every position of a single non-zero nibble, pairs of nibbles, all-zero, all-f
+	{
+		var phones [][]byte
+		for _, n := range []int{6, 10} {
+			phones = append(phones, make([]byte, n), bytes.Repeat([]byte{0xff}, n), bytes.Repeat([]byte{0x99}, n))
+			for pos := 0; pos < 2*n; pos++ {
+				for _, d := range []byte{1, 5, 9, 0xa, 0xf} {
+					b := make([]byte, n)
+					if pos%2 == 0 {
+						b[pos/2] = d << 4
+					} else {
+						b[pos/2] = d
+					}
+					phones = append(phones, b)
+					for pos2 := pos + 1; pos2 < 2*n; pos2 += 3 {
+						b2 := append([]byte{}, b...)
+						if pos2%2 == 0 {
+							b2[pos2/2] |= 0x30
+						} else {
+							b2[pos2/2] |= 0x07
+						}
+						phones = append(phones, b2)
+					}
+				}
+			}
+		}
+		for _, bcd := range phones {
+			v := len(bcd) == 10
+			for _, fr := range []bool{false, true} {
+				check(ref.Build(ref.Params{ID: 0x0002, V2019: v, VersionByt: 1, Fragmented: fr, Sum: 3, No: 2, BCD: bcd, Serial: 7, Body: []byte{1, 2}}), "phone-classes", true)
+			}
+		}
+		c.Count("phone_class_frames", int64(len(phones)*2))
+	}
 	// ---- (d) random strings
 	nstr := c.N(100000, 3000000)
 	core.ParallelFor(nstr/1000, ncpu(), func(ci int) {
